@@ -28,8 +28,9 @@ before anything is executed - never after looking at an outcome).  ``excluded(as
   E11 colliding literal  literals -1 / -2 (CPython hash collision, property C08) unless asked for
   E14 constant order key an ``orderby`` key without any element or aggregate (an integer there is a column position in SQL,
                          a bound parameter is refused by DuckDB; it orders nothing anyway)
-  E12 ambiguous handles  two different references with the same name (or a reference named like a table) among the
-                         origins of one query: SQL has no way to tell them apart, the DSL grammar is silent
+  E12 ambiguous handles  two origins with the same name among the origins of one query (a table joined with itself
+                         without a reference, two references sharing a name, a reference named like a table): SQL has
+                         no way to tell them apart, the DSL grammar is silent
 Per engine (``engine_excluded``): E13 a set operation with a set operation as an operand is not run on SQLite (its
 grammar has no parenthesised compound operands; DuckDB runs them).
 """
@@ -255,10 +256,9 @@ def excluded(ast, allow_colliding=False):
                     if node['kind'] == 'str' and value not in STRINGS:
                         return 'E4 string outside the dictionary'
         if src['t'] == 'query':
-            handles = {}
-            for leaf in _leaves(src['l']):
-                if handles.setdefault(leaf['name'], g.canon(leaf)) != g.canon(leaf):
-                    return 'E12 ambiguous handles'
+            names = [leaf['name'] for leaf in _leaves(src['l'])]
+            if len(set(names)) != len(names):
+                return 'E12 ambiguous handles'
             for feat in feats:
                 for node in _nodes(feat):
                     if node['f'] == 'agg' and node['op'] == 'avg':
